@@ -1,24 +1,22 @@
 SPECIFICATION Spec
 CONSTANTS
-  Procs = {1}
+  Procs = {1, 2, 3}
   MaxRev = 6
-  MaxOps = 2
+  MaxOps = 1
   MaxFaults = 0
   MaxCrash = 0
   MaxEdits = 0
   FaultKinds = {}
-  Sequential = TRUE
+  Sequential = FALSE
   Planned = FALSE
   MaxPlan = 36
-  InitStores <- StoresEmpty
-  LogSched = FALSE
+  InitStores <- StoresDeployed
+  LogSched = TRUE
   KeepLog = TRUE
-  OpMenu <- XOwn
+  OpMenu <- MenuConc
   EditMenu <- EditsNone
-  PreMenu <- PreOwnX
+  PreMenu <- PreDeployedA
   Objs <- AllObjs
   MenuGuard <- GuardTrue
-VIEW View
-INVARIANTS Inv_C07_Refusal
-PROPERTIES Act_C07_Stamped Act_C07_DeleteNamed
+CONSTRAINT GenExport
 CHECK_DEADLOCK FALSE
